@@ -50,15 +50,20 @@ def same_item(a, b, label):
 class LodOp(Harness):
     prop = "C15"
     opname = "lod_op"
-    def __init__(self, method, maxn, variant=""):
-        self.method = method; self.maxn = maxn; self.variant = variant
-        self.name = f"C15.{method}{'.' + variant if variant else ''}.n{maxn}"
-        self.bounds = {"items": f"0..{maxn}", "keys": "id + up to 2 of k, v (ragged where the method allows)", "values": "int64-range ints or None"}
+    def __init__(self, method, maxn, variant="", pre=None):
+        self.method = method; self.maxn = maxn; self.variant = variant; self.pre = pre
+        self.name = f"C15.{method}{'.' + variant if variant else ''}{'.after_' + pre if pre else ''}.n{maxn}"
+        self.bounds = {"items": f"0..{maxn}", "keys": "id + up to 2 of k, v (ragged where the method allows)", "values": "int64-range ints or None",
+                       "receiver": f"a list on which {pre}('k') was called before (it marks the object)" if pre else "freshly constructed"}
         self.symbolic = ["item values", "predicate outcomes", "n / index / multiplier"]
         self.choice_dims = ["length", "per-item key presence and None pattern", "key sets", "slice bounds"]
         tgt = {"add": "__add__", "mul": "__mul__", "rmul": "__rmul__", "getitem": "__getitem__"}.get(method, method)
         self.goals = [f"list_of_dicts.py:ListOfDicts.{tgt}"]
     def build(self, ctx):
+        inp = self._build(ctx)
+        if self.pre: inp["pre"] = self.pre
+        return inp
+    def _build(self, ctx):
         m = self.method
         n = choice("n", range(self.maxn + 1))
         N = self.maxn
@@ -252,6 +257,8 @@ def harnesses(tier):
     hs = [LodOp("filter", N, "function"), LodOp("filter_out", N, "function"), LodOp("filter", N, "kw"), LodOp("filter_out", N, "kw"),
           LodOp("sort", 3), LodOp("sort", 2 if q else 3, "ragged"), LodOp("unique", N, "keys"), LodOp("unique", 2 if q else 3, "ragged"),
           LodOp("drop_na", 2 if q else 3)]
+    for m, v in (("unique", "keys"), ("sort", ""), ("getitem", "one")) + ((("filter", "kw"), ("head", "one"), ("copy", "one"), ("reverse", "one")) if not q else ()):
+        hs.append(LodOp(m, 2, v, pre="group_by"))
     for m in ("select", "unselect", "rename", "fill_missing_keys"):
         hs.append(LodOp(m, 2))
     for m in ("modify", "modify_if"):
